@@ -526,12 +526,13 @@ impl CatWorld {
     }
 
     /// Tries a raw token on a fresh connection; on success also checks that the connection is
-    /// really authenticated (get_me answers) and returns the user id it is logged in as.
+    /// really authenticated (a command that needs authentication but no permission answers) and returns the user id it is logged in as.
     pub fn try_token(&mut self, token: &str) -> Result<Option<u32>, String> {
         let c = self.node.tcp_client();
         let r = self.node.try_block_on(async {
             let id = c.login_with_personal_access_token(token).await?;
-            c.get_me().await?;
+            // needs authentication but no permission
+            c.get_personal_access_tokens().await?;
             Ok::<u32, IggyError>(id.user_id)
         });
         drop(c);
